@@ -12,7 +12,7 @@ LEVEL_TEXT = (
     'end or a closed cycle; Path values are only built by re-executing the model; parent pointers '
     'are the expanding job. Does not decide fingerprint collisions or model determinism.')
 
-FLOORS = {'C03-R1': 12, 'C03-R2': 3, 'C03-R3': 4, 'C03-R4': 1, 'C03-R5': 6, 'C03-R6': 4}
+FLOORS = {'C03-R1': 12, 'C03-R2': 3, 'C03-R3': 4, 'C03-R4': 1, 'C03-R5': 6, 'C03-R6': 4, 'C03-R7': 1}
 
 
 # --------------------------------------------------------------------------------------------
@@ -319,6 +319,37 @@ def r6_parent_pointers(ctx, F, rule='C03-R6'):
                           bad='%s spawn: initial state inserted with parent %r' % (strat, v), span=c.span)
 
 
+def r7_sim_fresh_cycle_set(ctx, F, rule='C03-R7'):
+    """a "cycle closed" conclusion is only valid if the visited set holds states of THIS trace only"""
+    cb = CB(F, 'SIM')
+    b = cb.b
+    roots = set()
+    for (c, new, seen) in cb.arb:
+        roots.add(noref(b.val(c.args[0])))
+    if len(roots) != 1:
+        raise AnchorMissing('SIM: cycle-detection set is not a single value (%s)' % roots)
+    root = next(iter(roots))
+    first_ins = [c for (c, n_, s_) in cb.arb]
+    ok = False
+    why = ''
+    if root.kind == 'call':
+        c = b.call_at(root.key)
+        ok = c is not None and c.is_('HashSet::new', 'HashSet::default', 'HashSet::with_capacity', 'Default::default') \
+            and not b.in_cycle(c.bb) and all(b.dominates(c.bb, i.bb) for i in first_ins)
+        why = 'the set is created per trace by %s' % (c.short if c else '?')
+    elif root.kind in ('arg', 'local'):
+        # handed in (or long-lived): it must be cleared on every path before the first use
+        clears = [c for c in b.calls_to('HashSet::clear') if noref(b.val(c.args[0])) == root and not b.in_cycle(c.bb)]
+        ok = bool(clears) and all(any(b.dominates(cl.bb, i.bb) for cl in clears) for i in first_ins)
+        why = 'the set is cleared before the trace starts'
+    ctx.check(ok, rule, 'cycle-set-fresh-per-trace', b,
+              good='the cycle-detection set starts empty for every trace (%s)' % why,
+              bad='SIM: the set used to detect "this trace closed a cycle" is not fresh for every trace (it is '
+                  '%r and is not created/cleared before the first insert on every path): states left over '
+                  'from an earlier, abandoned trace make a new trace "close a cycle" at once, and a path that '
+                  'can be extended and revisits nothing is reported as an eventually counterexample' % root)
+
+
 def run(ctx):
     F = ctx.facts
     ctx.doc('C03-R1', 'the value recorded in discoveries is the dequeued job\'s own fingerprint(s) and '
@@ -346,4 +377,8 @@ def run(ctx):
         r4_sim_end(ctx, F)
     with ctx.rule('C03-R5', 'Path'):
         r5_path_construction(ctx, F)
+    ctx.doc('C03-R7', 'simulation: the per-trace cycle-detection set is created (or cleared) before its first use '
+                      'on every path of a trace')
+    with ctx.rule('C03-R7', 'SIM'):
+        r7_sim_fresh_cycle_set(ctx, F)
     r6_parent_pointers(ctx, F)
